@@ -5,6 +5,7 @@
 // reference model = map of everything this server issued.  Only "completed as resumed" is judged: a server that
 // declines to resume is never flagged.
 #include "driver.h"
+#include <functional>
 #include "world.h"
 #include <memory>
 #include "peek.h"
@@ -48,7 +49,7 @@ struct Hist {
     void fail(const std::string &c, const std::string &x, const std::string &d) { if (viol_cls.empty()) { viol_cls = c; viol_ctx = x; viol_detail = d; } }
     bool setup();
     void teardown();
-    void connect(int c, int server, const Op &op);
+    void connect(int c, int server, const Op &op, const std::function<void()> &mid = nullptr);
     void edit(int c, const Op &op);
     void graft(int dst, int src, const Op &op);
     void run();
@@ -82,7 +83,8 @@ static Plan c14_gen(uint64_t seed, int tier, uint64_t index) {
         case 10: p.ops.push_back(Op("addkey", (int64_t) (2 + r.below(3)))); break;
         case 11: p.ops.push_back(Op("rmkey", (int64_t) (1 + r.below(4)))); break;
         case 12: if (r.chance(1, 2)) { p.ops.push_back(Op("foreign", c)); } else { p.ops.push_back(Op("halfopen", c, (int64_t) r.below(2), (int64_t) r.next() % 100000, (int64_t) r.below(8))); p.ops.push_back(Op("resume", c, 0)); } break;                                                                                          // full handshake with the foreign server: the sid now holds its ticket/psk
-        case 13: if (r.chance(1, 2)) { p.ops.push_back(Op("graft", c, (int64_t) r.below(NCLIENTS), (int64_t) r.below(2))); p.ops.push_back(Op("resume", c, 0)); break; }
+        case 13: if (r.chance(1, 4)) { p.ops.push_back(Op("nested", c, (int64_t) r.below(NCLIENTS), (int64_t) r.below(2), (int64_t) r.below(2) * 2)); p.ops.push_back(Op("graft", c, (int64_t) r.below(NCLIENTS), 1)); p.ops.push_back(Op("resume", c, 0)); break; }
+                 if (r.chance(1, 2)) { p.ops.push_back(Op("graft", c, (int64_t) r.below(NCLIENTS), (int64_t) r.below(2))); p.ops.push_back(Op("resume", c, 0)); break; }
         /* fall through */
         case 14: p.ops.push_back(Op("edit", c, (int64_t) r.below(9), (int64_t) r.below(4096), (int64_t) r.below(256))); break;
         case 15: if (r.chance(1, 2)) { p.ops.push_back(Op("dirty", c)); } else if (r.chance(2, 3)) { p.ops.push_back(Op("hold", c, 0)); } else { p.ops.push_back(Op("release", (int64_t) r.below(4))); } break;                                                                                            // resume and delete both sessions without closure
@@ -147,6 +149,17 @@ static std::vector<Plan> c14_fixed(int tier) {
                     p.cfg["kind"] = kind ? KK_EC256 : KK_RSA2048;
                     p.ops.push_back(Op("full", 0, ver, 7, tk)); p.ops.push_back(Op("resume", 0, 4)); p.ops.push_back(Op("resume", 0, 0));
                     v.push_back(p);
+                }
+                if (ver < 2 && !tk) {   // two full handshakes nested (B inside A), then each presents the other's id with its own secret, then both resume honestly
+                    for (int var = 0; var < 4; var++) {
+                        Plan p; p.seed = 151000 + (uint64_t) ((kind * 3 + ver) * 4 + var);
+                        p.cfg["kind"] = kind ? KK_EC256 : KK_RSA2048;
+                        if (var & 2) { p.ops.push_back(Op("full", 2, ver, 7, 0)); p.ops.push_back(Op("fatal", 2, 1)); }     // a wiped entry exists
+                        p.ops.push_back(Op("nested", 0, 1, ver, 0));
+                        p.ops.push_back(Op("graft", (var & 1) ? 1 : 0, (var & 1) ? 0 : 1, 1)); p.ops.push_back(Op("resume", (var & 1) ? 1 : 0, 0));
+                        p.ops.push_back(Op("resume", (var & 1) ? 0 : 1, 0));
+                        v.push_back(p);
+                    }
                 }
                 if (ver < 2) {   // table-slot poisoning: B files a session of its own (ticket-resumed, or TLS 1.3 with a chosen legacy id) under A's table index, then presents A's id with B's secret
                     for (int how = 0; how < 3; how++) {
@@ -235,7 +248,7 @@ static SidSnap snap_sid(sslSessionId_t *sid) {
 }
 
 // mode: "full" (sid cleared first), "resume" (present whatever the sid holds), "fatal", "dirty", "foreign"
-void Hist::connect(int c, int server, const Op &op) {
+void Hist::connect(int c, int server, const Op &op, const std::function<void()> &mid) {
     Client &C = cl[c];
     std::string mode = op.k;
     if (mode == "full" || mode == "foreign") {
@@ -279,6 +292,13 @@ void Hist::connect(int c, int server, const Op &op) {
     bool armed = false;
     w.filter = [&](Record &r, std::vector<Bytes> &out) { Bytes b = r.raw; if (armed && r.dir == corrupt_dir && r.type == 23 && b.size() > 8) { b[b.size() - 3] ^= 0x10; armed = false; counters["fault.corrupt_record"]++; } out.push_back(b); };
     if (!w.connect()) { counters["connect_failed"]++; fp.add((uint64_t) 0xdead); return; }
+    if (mid) {
+        // interleaving: this handshake is paused when the server's first flight (ServerHello ...) is on the wire, other connections run to
+        // completion, then it goes on
+        w.collect(DIR_C2S); while (w.deliver(DIR_C2S)) { } w.collect(DIR_S2C);
+        mid();
+        counters["conn.interleaved"]++;
+    }
     bool ok = w.handshake();
     bool resumed_s = ok && w.srv->is_resumed(), resumed_c = ok && w.cli->is_resumed();
     uint32_t nver = ok ? (w.srv->negotiated_version() & 0xffffff) : 0, nsuite = ok ? w.srv->negotiated_suite() : 0;
@@ -473,7 +493,14 @@ void Hist::graft(int dst, int src, const Op &op) {
 void Hist::run() {
     for (auto &op : plan.ops) {
         if (!viol_cls.empty()) { break; }
-        if (op.k == "graft") { graft((int) ((uint64_t) op.a % NCLIENTS), (int) ((uint64_t) op.b % NCLIENTS), op); }
+        if (op.k == "nested") {
+            // client a's full handshake with client b's full handshake nested inside it (between a's ServerHello and a's Finished)
+            int oa = (int) ((uint64_t) op.a % NCLIENTS), ob = (int) ((uint64_t) op.b % NCLIENTS);
+            if (oa == ob) { ob = (oa + 1) % NCLIENTS; }
+            Op outer("full", oa, op.c, 7, op.d), inner("full", ob, op.c, 7, op.d);
+            connect(oa, 0, outer, [&]() { connect(ob, 0, inner); });
+        }
+        else if (op.k == "graft") { graft((int) ((uint64_t) op.a % NCLIENTS), (int) ((uint64_t) op.b % NCLIENTS), op); }
         else if (op.k == "halfopen") { forge_halfopen((int) ((uint64_t) op.a % NCLIENTS), op); }
         else if (op.k == "release") { if (!held.empty()) { release((size_t) ((uint64_t) op.a % held.size())); } }
         else if (op.k == "full" || op.k == "resume" || op.k == "fatal" || op.k == "dirty" || op.k == "hold") { connect((int) ((uint64_t) op.a % NCLIENTS), 0, op); }
